@@ -137,6 +137,12 @@ Macro(s, t, o) ==
   IF b = {} THEN {}
   ELSE LET e == Run(CHOOSE x \in b : TRUE, t) IN
        IF e.th[t].pc # "idle" THEN {} ELSE { [e EXCEPT !.out.beg = o, !.out.fin = o] }
+\* "expire k" (real-time runs): the deadline passes and the timer fires right behind it
+ExpireOp(k) == [NoOp EXCEPT !.op = "expire", !.k = k]
+MacroX(s, t, o) ==
+  IF o.op = "expire"
+    THEN UNION { { [y EXCEPT !.out.beg = o, !.out.fin = o] : y \in Macro(x, t, TimerOp(o.k)) } : x \in Macro(s, t, DlOp(o.k)) }
+    ELSE Macro(s, t, o)
 
 ------------------------------------------------------------------------------
 (* Property C07 as a monitor over logged inputs and observed outputs only:      *)
@@ -170,8 +176,8 @@ MonStep(m, o) ==
       rep1 == IF b.op = "reply"
                 THEN m.rep \cup {[lt |-> b.lt, idr |-> b.idr, from |-> b.from, ack |-> b.ack, tag |-> b.tag, late |-> m.fin]}
                 ELSE m.rep
-      fin1 == [k \in Queries |-> m.fin[k] \/ (f.op = "dl" /\ f.k = k)]
-      tmd1 == [k \in Queries |-> m.tmd[k] \/ (f.op = "timer" /\ f.k = k)]
+      fin1 == [k \in Queries |-> m.fin[k] \/ (f.op \in {"dl", "expire"} /\ f.k = k)]
+      tmd1 == [k \in Queries |-> m.tmd[k] \/ (f.op \in {"timer", "expire"} /\ f.k = k)]
       k == r.k
       ltk == IF k = 0 THEN 0 ELSE o.q[k].lt
       Addr(x) == x.lt = ltk /\ x.idr = k
